@@ -231,8 +231,38 @@ def run(ctx):  # noqa: C901, PLR0912, PLR0915
     writes = g.nodes_calling('write')
     ok_w = ok_w and all(any(g.dominates(w, r) for w, _ in writes) for r in rets)
     gd = cfg_of(dch)
-    brks = [n for n in gd.nodes if n.kind == 'break']
-    ok_r = bool(brks) and all(any(txt in ('chunk_len == 0',) and pol for txt, pol in gd.facts_at(b)) for b in brks)
+    # reader: every way out of the chunk loop (a break, or the loop test becoming false) carries "<size> == 0", <size> being
+    # the local that holds int(<size line>, 16) - `while True: .. if n == 0: break` and `while n != 0:` are the same
+    from engine.cfg import Facts, _atoms
+    la_d = local_assignments(dch.node)
+    sizes = {nm for nm, vals in la_d.items() if any(isinstance(v, ast.Call) and call_name(v) == 'int' and len(v.args) == 2
+                                                    for v in vals)}
+    grown = True
+    while grown:
+        grown = False
+        for nm, vals in la_d.items():
+            if nm not in sizes and any(isinstance(v, ast.Name) and v.id in sizes for v in vals):
+                sizes.add(nm)
+                grown = True
+    def _outermost(n):
+        cur = getattr(n, '_parent', None)
+        while cur is not None and cur is not dch.node:
+            if isinstance(cur, (ast.While, ast.For)) and not getattr(cur, '_inline_wrapper', False):
+                return False
+            cur = getattr(cur, '_parent', None)
+        return True
+    main_loops = [n for n in walk_no_nested(dch.node) if isinstance(n, ast.While) and not getattr(n, '_inline_wrapper', False)
+                  and _outermost(n)]
+    exits = []
+    for b in gd.nodes:
+        if b.kind == 'break' and b.loops and b.loops[-1] in main_loops:
+            exits.append(gd.facts_at(b))
+        if b.kind == 'branch' and b.label is False and b.stmt in main_loops and not isinstance(b.test, ast.Constant):
+            f = Facts()
+            _atoms(b.test, False, f)
+            f.resolved = list(f)
+            exits.append(f)
+    ok_r = len(main_loops) == 1 and bool(exits) and all(any((f'{v} == 0', True) in f for v in sizes) for f in exits)
     ctx.ob('C17.R4', 'terminating zero chunk', ok_w and ok_r,
            'mk_chunks returns exactly after writing an empty chunk; _read_dechunk stops exactly at a chunk of size 0',
            fi=mkc, witness={'writer_returns_after_empty_chunk': ok_w, 'reader_breaks_on_zero': ok_r})
@@ -264,7 +294,7 @@ def _q_zero_excluded(fn):
     dp = Deps(fn)
     qdicts = {n.targets[0].value.id for n in walk_no_nested(fn) if isinstance(n, ast.Assign)
               and isinstance(n.targets[0], ast.Subscript) and isinstance(n.targets[0].value, ast.Name)
-              and any(isinstance(c, ast.Call) and call_name(c) == 'float' for c in ast.walk(n.value))}
+              and 'call:float' in dp.sources(n.value)}
     if not qdicts:
         return False, 'no q-value is parsed (float(...)) into a per-coding record'
 
